@@ -2,6 +2,7 @@
 import RjModel.Model.Parse
 import RjModel.Generated.Constants
 import RjModel.Props.C06
+import RjModel.Props.C10
 import RjModel.Props.C11
 import RjModel.Props.C13
 import RjModel.Props.C16
